@@ -67,10 +67,7 @@ func vhDeposit(h *vrt.H, k Keeper, pfx string, params types.Params, bn uint64, m
 		c.key = &relayertypes.PublicKey{Key: &relayertypes.PublicKey_Secp256K1{Secp256K1: kb}}
 	}
 	evm := h.Bytes(pfx+"evm", 20)
-	maxOut := 2
-	if h.Thorough() {
-		maxOut = 3
-	}
+	maxOut := 3
 	c.nOut = h.Choose(pfx+"nOutputs", 1, maxOut)
 	vout := uint32(h.Choose(pfx+"vout", 0, maxOut))
 	// the script a correct depositor would pay to, for this version
@@ -92,13 +89,22 @@ func vhDeposit(h *vrt.H, k Keeper, pfx string, params types.Params, bn uint64, m
 	c.scriptGenuine = h.Bool(pfx + "genuineScript")
 	values := make([]int64, c.nOut)
 	scripts := make([][]byte, c.nOut)
+	// version 1: outputs 0 and 1 carry (or not) the key-hash script and the data script whatever
+	// output is designated; version 0/other: the designated output carries (or not) the v0 script
+	g0, g1 := c.scriptGenuine, c.scriptGenuine
+	if version == 1 {
+		g0, g1 = h.Bool(pfx+"genuineOut0"), h.Bool(pfx+"genuineOut1")
+		c.scriptGenuine = h.Both(g0, g1)
+	}
 	for i := 0; i < c.nOut; i++ {
 		values[i] = int64(h.U64(h.Name(pfx+"value", i)) >> 1) // mined outputs are non-negative
 		switch {
-		case uint32(i) == vout:
+		case version == 1 && i == 0:
+			scripts[i] = vhPick(h, g0, want0, h.Name(pfx+"script", i))
+		case version == 1 && i == 1:
+			scripts[i] = vhPick(h, g1, want1, h.Name(pfx+"script", i))
+		case version != 1 && uint32(i) == vout:
 			scripts[i] = vhPick(h, c.scriptGenuine, want0, h.Name(pfx+"script", i))
-		case version == 1 && i == 1 && vout == 0:
-			scripts[i] = vhPick(h, c.scriptGenuine, want1, h.Name(pfx+"script", i))
 		default:
 			scripts[i] = h.Bytes(h.Name(pfx+"script", i), 22)
 		}
